@@ -1,4 +1,5 @@
 import SaModel.Lemmas.C01Cont
+import SaModel.Lemmas.C01DefaultAt
 /-
 `take` after any successful operation leaves the same builder behind as `take` before it: no push, null or
 placeholder changes the part of a builder state that survives `take` (paths, types, nullability, child
@@ -132,9 +133,15 @@ theorem pushDefaultK_takeRest : ∀ (b : B) (k : Nat) (b' : B), pushDefaultK b k
     · simp [fail] at h
   | .union p (.cons c m rest) types offs cur, k, b', h => by
     simp only [pushDefaultK, ctx_ok] at h
-    obtain ⟨c', h1, h2⟩ := (bind_ok _ _ _).1 h
-    cases h2
-    simp [takeRest, takeRestAll, pushDefaultK_takeRest c k c' h1]
+    split at h
+    · simp [fail] at h
+    · obtain ⟨fs', h1, h2⟩ := (bind_ok _ _ _).1 h
+      cases h2
+      obtain ⟨cj, mj, hg⟩ := firstReal_get c m rest
+      rw [pushDefaultKAt_eq _ _ k cj mj hg] at h1
+      obtain ⟨c', h3, h4⟩ := (bind_ok _ _ _).1 h1
+      cases h4
+      simp [takeRest, takeRestAll_set _ _ cj c' mj hg (pushDefaultK_takeRest_at _ _ cj mj hg k c' h3)]
 theorem pushDefaultKAll_takeRest : ∀ (fs : BL) (k : Nat) (fs' : BL), pushDefaultKAll fs k = .ok fs' →
     takeRestAll fs' = takeRestAll fs
   | .nil, k, fs', h => by simp [pushDefaultKAll] at h; subst h; rfl
@@ -144,6 +151,14 @@ theorem pushDefaultKAll_takeRest : ∀ (fs : BL) (k : Nat) (fs' : BL), pushDefau
     obtain ⟨r', h3, h4⟩ := (bind_ok _ _ _).1 h2
     cases h4
     simp [takeRestAll, pushDefaultK_takeRest b k b' h1, pushDefaultKAll_takeRest rest k r' h3]
+theorem pushDefaultK_takeRest_at : ∀ (fs : BL) (j : Nat) (c : B) (m : FieldMeta), fs.get? j = some (c, m) →
+    ∀ (k : Nat) (c' : B), pushDefaultK c k = .ok c' → takeRest c' = takeRest c
+  | .nil, _, _, _, h => by simp [BL.get?] at h
+  | .cons b _ _, 0, c, m, h => by
+    simp only [BL.get?, Option.some.injEq, Prod.mk.injEq] at h
+    rw [← h.1]
+    exact pushDefaultK_takeRest b
+  | .cons _ _ rest, j + 1, c, m, h => pushDefaultK_takeRest_at rest j c m (by simpa [BL.get?] using h)
 end
 
 theorem pushNone_takeRest : ∀ (b : B) (b' : B), pushNone b = .ok b' → takeRest b' = takeRest b
@@ -196,6 +211,8 @@ theorem pushNone_takeRest : ∀ (b : B) (b' : B), pushNone b = .ok b' → takeRe
     simp [takeRest, setValidity_skel h1, pushDefaultKAll_takeRest fs 1 fs' h3]
   | .dictionary p idx vals index, b', h => by
     simp only [pushNone, ctx_ok] at h
+    split at h
+    · simp [fail] at h
     obtain ⟨idx', h1, h2⟩ := (bind_ok _ _ _).1 h
     cases h2
     simp [takeRest, pushNone_takeRest idx idx' ((ctx_ok _ _ _).1 h1)]
